@@ -262,6 +262,32 @@ def mon_watch(session, ev, name, before, out_i, crash_i):
 
 
 # ----------------------------------------------------------------------------- C10
+PUBSUB_ALLOWED = {'ping', 'subscribe', 'unsubscribe', 'psubscribe', 'punsubscribe', 'quit'}
+
+
+def mon_subscriber_gate(session, ev, name, before, out_i, crash_i):
+    """while subscribed a client may only issue (P)SUBSCRIBE / (P)UNSUBSCRIBE / PING / QUIT: everything else is answered with an error"""
+    if ev[0] != 'cmd' or before is None or crash_i is not None:
+        return
+    c, fields = ev[1], ev[2]
+    st = before['conns'].get(c)
+    if not st or not st['pubsub'] or st['tx'] != '-' or st['dead'] or not name or name in PUBSUB_ALLOWED:
+        return
+    mine = out_i.get(c, [])
+    if len(mine) == 1 and isinstance(mine[0], RawError):
+        return
+    sock = session.impl.socks.get(c)
+    how = 'the command was executed'
+    try:
+        func = getattr(sock, name if name != 'exec' else 'exec_', None) or getattr(sock, name + '_', None)
+        ret = func._fakeredis_sig.apply(list(fields[1:]), sock._db)
+        if len(ret) == 1:
+            how = 'short-circuit: Signature.apply answered for a missing key before the subscriber-mode check'
+    except Exception as e:      # noqa
+        how = 'the command was executed (%s)' % type(e).__name__
+    add(session, 'C10', 'subscriber_mode_refuses', 'subscribed connection %d sent %r and got %r instead of an error; %s' % (c, fields, mine, how))
+
+
 def mon_pubsub(session, ev, name, before, out_i, crash_i):
     """reference bookkeeping of subscriptions; PUBLISH deliveries and count; acknowledgements"""
     import funcs as Fn
